@@ -373,7 +373,5 @@ func hashRounds(cs *Case) []byte {
 	return b.Bytes()
 }
 
-func runParserCase(cs *Case) *Result { return &Result{ID: cs.ID} }
-func judgeParser(r *hk.Run, cs *Case, res *Result) {}
 
 var syncers = map[string]hk.Gosyncer{}
